@@ -93,6 +93,7 @@ def run_batch(item):
                 c.close()
                 continue
             obs = []
+            named = {}
             for st in s['steps']:
                 o = {'serials': []}
                 kind = st['kind']
@@ -128,10 +129,17 @@ def run_batch(item):
                     # several Parse(+Bind+Execute) in one Sync batch: parts = [{'sql', 'name'}]
                     msgs = []
                     for pt in st['parts']:
+                        if pt.get('bind_only'):
+                            # no Parse: Bind + Execute of a name prepared earlier in this session
+                            o['serials'].append(named.get(pt['bind_only']))
+                            msgs += [W.Bind('', pt['bind_only']), W.Execute()]
+                            continue
                         sql = pt['sql'] + ' ' + c.tag()
                         pt['_serial'] = c.serial
                         o['serials'].append(c.serial)
                         msgs.append(W.Parse(pt.get('name', ''), sql))
+                        if pt.get('name'):
+                            named[pt['name']] = c.serial
                         if pt.get('run', True):
                             msgs += [W.Bind('', pt.get('name', '')), W.Execute()]
                     if st.get('flush'):
